@@ -1,5 +1,5 @@
 (* C01 driver.  One case per line:
-     pp <term>        -> "<items> | <parse (pp e) as term or FAIL> | <no_fuse 0/1> | <wf 0/1> | <lex_ok 0/1>"
+     pp <term>        -> "<items> | <parse (pp e) as term or FAIL> | <no_fuse 0/1> | <wf 0/1> | <image 0/1>"
      parse <tokens>   -> "<term or FAIL>"
      fuse <tok> <tok> -> "1" if the model says the two tokens may not be adjacent, else "0"
    term / token syntax: see harness/impl/c01_impl.py (enc_term / enc_tokens). *)
@@ -45,7 +45,8 @@ let rec rd_expr = function
     let (args, r1) = rd_n rd_expr (int_of_string ka) r [] in
     (match r1 with kk :: r2 -> let (kw, r3) = rd_n rd_field (int_of_string kk) r2 [] in (ECall (on m, nn f, args, kw), r3)
                  | _ -> raise (Bad "K"))
-  | "T" :: opt :: r -> let (t, r1) = rd_type r in let (e, r2) = rd_expr r1 in (ECast (opt = "1", t, e), r2)
+  | "T" :: cm :: r -> let (t, r1) = rd_type r in let (e, r2) = rd_expr r1 in
+    (ECast ((match cm with "0" -> CNone | "1" -> COpt | "2" -> CReq | _ -> raise (Bad "cmod")), t, e), r2)
   | "D" :: cnt :: r -> let (e, r1) = rd_expr r in let (ixs, r2) = rd_n rd_ix (int_of_string cnt) r1 [] in (EIndir (e, ixs), r2)
   | "A" :: r -> let (e, r') = rd_expr r in (EDetached e, r')
   | "G" :: m :: n :: r -> (EGlobal (on m, nn n), r)
@@ -84,7 +85,7 @@ let rec wr b e =
   | ECall (m, f, args, kw) ->
     add (" K " ^ so m ^ " " ^ si f ^ " " ^ string_of_int (List.length args)); List.iter (wr b) args;
     add (" " ^ string_of_int (List.length kw)); List.iter (fun (n, x) -> add (" " ^ si n); wr b x) kw
-  | ECast (opt, t, x) -> add (" T " ^ (if opt then "1" else "0")); wr_type b t; wr b x
+  | ECast (cm, t, x) -> add (" T " ^ (match cm with CNone -> "0" | COpt -> "1" | CReq -> "2")); wr_type b t; wr b x
   | EIndir (x, ixs) ->
     add (" D " ^ string_of_int (List.length ixs)); wr b x;
     List.iter (fun ((sl, a), bb) -> add (" " ^ (if sl then "1" else "0"));
@@ -118,7 +119,7 @@ let () =
            let its = String.concat " " (List.map (function IT t -> tok_str t | ISp -> "_") items) in
            let back = (match parse (pp e) with Some e' -> term_str e' | None -> "FAIL") in
            let b01 x = if x then "1" else "0" in
-           print_string (its ^ " | " ^ back ^ " | " ^ b01 (no_fuse items) ^ " | " ^ b01 (wf e) ^ " | " ^ b01 (lex_ok e))
+           print_string (its ^ " | " ^ back ^ " | " ^ b01 (no_fuse items) ^ " | " ^ b01 (wf e) ^ " | " ^ b01 (image e))
          | "fuse" :: a :: b :: [] -> print_string (if fuses (rd_tok a) (rd_tok b) then "1" else "0")
          | "parse" :: r ->
            (match parse (List.map rd_tok r) with Some e -> print_string (term_str e) | None -> print_string "FAIL")
